@@ -9,8 +9,16 @@ load success, linkage from genesis and work against the last completed Save. Wha
 is the shape of the write sequence the argument rests on — for every repository state — and its tie
 to the source: branch files are written before the index, the index before the invalid list, the
 main files before the branch files, Clean never writes the index; each event touches one key.
+
+For the FIRST Save of a linear chain (one branch, any length, nothing saved before) the statement
+itself is a theorem, `C12_first_save_crash_linear`: for EVERY prefix of the write sequence Load of
+the storage as it then is succeeds without error or panic and reports either the genesis-only
+chain (the index is not written yet — no Save was completed before, so nothing is lost) or
+exactly the chain being saved, tip and header at every height. Later Saves / Cleans over existing
+files, and forests with side branches, are covered by the enumeration only (`_partial`).
 -/
 import BRV.Proofs.RepoBasics
+import BRV.Proofs.RepoCrash
 
 namespace BRV.Repo
 
@@ -97,5 +105,23 @@ def exR12 : Repo :=
     branches := [0], longest := 0, heights := [(0, 0)] }
 
 example : (match saveBranches exR12 with | .ok r' => r'.events.length | .error _ => 0) = 2 := by rfl
+
+/-- **C12 (first Save of a linear chain, every crash point).** -/
+theorem C12_first_save_crash_linear (r : Repo) (hl : Linear r) (depth : Int) (hd : 0 ≤ depth) (g : Hdr) (w : Nat)
+    (hg : Work.blockWork g.bits = some w) :
+    ∃ (rs : Repo) (E : List StoreEv), save r = (rs, none) ∧ rs.events = r.events ++ E ∧
+      ∀ n, n ≤ E.length →
+        ∃ rl, load { r with store := (E.take n).foldl Store.apply r.store } depth g = (rl, none) ∧
+          ((tipHeight rl = 0 ∧ tipId rl = g.id ∧ tipWork rl = w) ∨
+           (tipHeight rl = tipHeight r ∧ tipId rl = tipId r ∧ tipWork rl = tipWork r ∧
+            (∀ k : Int, 0 ≤ k → headerAt rl k = headerAt r k) ∧ (∀ id, hashHeight rl id = hashHeight r id))) :=
+  first_save_crash_linear r hl depth hd g w hg
+
+/-- the write sequence of that Save: main-file writes and removals, then the branch file, the index,
+    the invalid list; the resulting store is the replay of the sequence. -/
+theorem C12_first_save_sequence (r : Repo) (hl : Linear r) :
+    ∃ (rs : Repo) (M : List StoreEv), save r = (rs, none) ∧ (∀ e ∈ M, e.isMain = true) ∧
+      rs.events = r.events ++ (M ++ saveTail r) ∧ rs.store = (M ++ saveTail r).foldl Store.apply r.store :=
+  save_linear_events r hl
 
 end BRV.Repo
